@@ -25,6 +25,11 @@ CLAIMS = {
         "Trusted: symx interception layer incl. the canonical-key groupby patch (hash buckets of pandas are made to respect solver-decided equality), z3. Chain harness uses concrete unequal weights.",
         "DESIGN.md 4/C14",
     ),
+    "C15": (
+        "The real center_all (median and mean estimators, as functions and by name; by_chrom on/off; skip_low on/off; PAR genome with a symbolic X bin), shift_xx and expect_flat_log2 run on 3-7 bins over autosomes/X/Y in both naming styles and with no autosome-like names; every log2 is symbolic in [-30, 10]. z3 proves per path that one constant is added to every bin, that the (two-level) estimator of the autosomal bins of the result is zero (independent closed-form median/mean terms), that null-coverage bins are ignored when asked, the X shift table of shift_xx with its input untouched, and the flat-reference values.",
+        "Trusted: symx interception layer, z3. Not covered: mode/biweight estimators, the statistical sex-inference clause (scipy median_test), PAR-Y bins in expect_flat_log2.",
+        "DESIGN.md 4/C15",
+    ),
     "C16": (
         "The real by_gene, do_genemetrics (with and without segments), squash_genes and do_breaks run on 4-6 bins over 1-2 chromosomes whose gene names are solver-chosen from {G1, G2, Antitarget, '-', 'CGH'} under the statement's contiguity precondition, with default and filtered row index; log2, weights, depths, coordinates, the threshold and the segment boundary are symbolic. z3 proves per path that the yielded index sets equal the statement's partition (each bin exactly once), that exactly the genes reaching the threshold with enough bins are reported with true start/end/count/summed weight/weight-averaged depth/weighted mean log2, the per-segment gene parts, squashed coordinates, and the break list with its left/right counts.",
         "Trusted: symx interception layer, z3. Gene names are concrete strings per path (forked choice); bins naming several genes are outside the precondition; squash_genes gets a mean as summary function.",
